@@ -31,14 +31,15 @@ class Fut:
         return self.md
 
 
-def run_real_scheduler(ctx, n_ens, workers, steps, seed, rng, image=None, weights=None, crash_after=None, wf=False):
+def run_real_scheduler(ctx, n_ens, workers, steps, seed, rng, image=None, weights=None, crash_after=None, wf=False,
+                       screen=0):
     """one run of the real scheduler(); returns dict with the Sim, counts and what is on disk"""
     import infretis.scheduler as S
     cstep0 = 0 if image is None else image["cstep"]
-    sim = T.Sim(ctx, n_ens, workers, steps, seed=seed, wf=wf, rng=rng, cstep=cstep0, image=image)
+    sim = T.Sim(ctx, n_ens, workers, steps, seed=seed, wf=wf, rng=rng, cstep=cstep0, image=image, screen=screen)
     st = sim.st
     rec = {"submitted": 0, "treated": 0, "consumed_ids": [], "submitted_ids": [], "stop_calls": 0,
-           "inflight_after": [], "error": None}
+           "inflight_after": [], "error": None, "restart_lag": []}
     try:
         if image is None:
             sim.load_initial()
@@ -102,6 +103,14 @@ def run_real_scheduler(ctx, n_ens, workers, steps, seed, rng, image=None, weight
                 st.treat_output = w_treat
             rec["treated"] += 1
             sim.op_dump()
+            # "the step counter in the restart file equals the number of completed moves": after EVERY completed
+            # move, whatever the screen-output frequency — this is the file a killed run restarts from
+            try:
+                on_disk = T.read_image(sim.tmp)["cstep"]
+            except FileNotFoundError:
+                on_disk = None
+            if on_disk != st.cstep:
+                rec["restart_lag"].append((st.cstep, on_disk))
             rec["inflight_after"].append((st.cstep, len(futures)))
             if crash_after is not None and st.cstep >= crash_after:
                 raise Crash()
@@ -140,6 +149,10 @@ def judge(ctx, rec, label, workers, steps, final=True):
         ctx.fail("C17:scheduler-raised", f"{type(rec['error']).__name__}: {rec['error']}", rep)
         return
     c0 = rec["cstep0"]
+    if rec.get("restart_lag"):
+        c, d = rec["restart_lag"][0]
+        ctx.fail("C17:restart-cstep-lags-completed-moves",
+                 f"after the move that made cstep {c} the restart file says {d} ({len(rec['restart_lag'])} such moves)", rep)
     if not rec.get("finished"):
         return
     want = max(0, steps - c0)
@@ -177,9 +190,11 @@ def scenario(ctx, n_ens, workers, chain, seed, with_model, outs):
     label = f"n_ens={n_ens} workers={workers} chain={chain} seed={seed} ctxseed={ctx.seed}"
     rng = random.Random(label)
     image = weights = None
+    screen = rng.choice((0, 1, 1, 3, 4))      # output frequency of the run: must not matter for the restart file
     for life, (steps, crash_after) in enumerate(chain):
         rec = run_real_scheduler(ctx, n_ens, workers, steps, seed, rng, image=image, weights=weights,
-                                 crash_after=crash_after)
+                                 crash_after=crash_after, screen=screen)
+        ctx.hit(f"screen={screen}")
         ctx.count(1, life=life, workers=workers, kind=("crash" if crash_after else "finish"))
         ctx.distinct((n_ens, workers, tuple(chain[: life + 1]), seed))
         judge(ctx, rec, f"{label} life={life}", workers, steps)
@@ -268,10 +283,12 @@ def run(ctx):
         c17_runner.run_runner(ctx)
     except ImportError as e:  # pragma: no cover
         ctx.extra["runner_half"] = f"not available: {e}"
-    ctx.assumptions += [
+    for a in [
         "scheduler half: setup_internal/setup_runner are replaced from outside; the MD move is its outcome",
         "asyncio / ProcessPoolExecutor internals are not modelled (runner half is trace validation: partial)",
-    ]
+    ]:
+        if a not in ctx.assumptions:
+            ctx.assumptions.append(a)
 
 
 def replay(ctx, obj):
